@@ -19,6 +19,9 @@ NCPU = os.cpu_count() or 4
 
 # per property: package dir, race build, shards per tier, overall timeout (s) per tier
 PROPS = {
+    "C01": dict(pkg="c01", shards=(4, 16), timeout=(300, 3600)),
+    "C07": dict(pkg="c07", shards=(6, 12), timeout=(600, 5400), fuzz=[("FuzzBoc", 300, 6)]),
+    "C02": dict(pkg="c02", shards=(4, 16), timeout=(300, 3600)),
     "C06": dict(pkg="c06", shards=(4, 16), timeout=(300, 3600)),
 }
 
@@ -247,7 +250,23 @@ def main():
         if cfg.get("gomaxprocs"):
             env["GOMAXPROCS"] = str(cfg["gomaxprocs"])
         cmds.append((argv, env, os.path.join(scratch, "log-%d.txt" % i)))
+    fuzz_specs = cfg.get("fuzz", []) if tier == "thorough" else []
+    for k, (target, secs, workers) in enumerate(fuzz_specs):
+        fdir = os.path.join(scratch, "fuzz-%d" % k)
+        os.makedirs(fdir)
+        env = dict(base, VERIF_SHARD="%d/%d" % (nsh + k, nsh + len(fuzz_specs)), VERIF_CWD=fdir)
+        env.pop("VERIF_STATS", None)
+        argv = [binary, "-test.run", "^$", "-test.fuzz", "^%s$" % target, "-test.fuzztime", "%ds" % secs,
+                "-test.fuzzcachedir", os.path.join(fdir, "cache"), "-test.parallel", str(workers), "-test.timeout", "%ds" % (secs + 600)]
+        cmds.append((argv, env, os.path.join(scratch, "log-%d.txt" % (nsh + k))))
     results = run_children(cmds, timeout)
+    fuzz_execs = 0
+    for k in range(len(fuzz_specs)):
+        import re
+        lg = open(os.path.join(scratch, "log-%d.txt" % (nsh + k)), errors="replace").read()
+        m = re.findall(r"execs: (\d+)", lg)
+        if m:
+            fuzz_execs += int(m[-1])
 
     violations, infra = [], []
     for i, (rc, to) in enumerate(results):
@@ -275,6 +294,13 @@ def main():
 
     checks, distinct = merge_stats(glob.glob(os.path.join(scratch, "stats-*.json")))
     wall = time.time() - t0
+    if fuzz_specs:
+        for c in checks.values():
+            pass
+        checks.setdefault("native-fuzz", dict(evaluations=0, nontrivial=0, classes={}, known={}, samples=[], exhaustive=[], extra={}))
+        checks["native-fuzz"]["evaluations"] = fuzz_execs
+        checks["native-fuzz"]["extra"] = {"targets": [f[0] for f in fuzz_specs], "seconds": [f[1] for f in fuzz_specs],
+                                           "note": "coverage-guided go test -fuzz executions of the same oracle; not counted in distinct_nontrivial"}
     notes = ["reference models in harness/internal/ref are the trusted base (DESIGN.md section 3)",
              "search is sampled: rapid seed derived from VERIF_SEED=%d, %d shard(s)" % (seed, nsh)]
     if sum(c["evaluations"] for c in checks.values()) > 0:
